@@ -236,8 +236,12 @@ Definition lit_attachment : bytes := bs "attachment".
 Definition lit_inline : bytes := bs "inline".
 
 Section Parser.
-(* the filename rule is a parameter so that the repaired and the unrepaired parser are the same text *)
-Context (fnof : bytes -> outcome bytes).
+(* the filename rule is a parameter so that the repaired and the unrepaired parser are the same text;
+   [legacy] = true selects the two other behaviours of the unrepaired tree that C10 repairs:
+   Content-Type copied into the generic headers (proposed_fixes/C10-content-type-genheader.diff) and
+   a nested multipart/alternative container also added as a body part
+   (proposed_fixes/C10-phantom-alternative-part.diff) *)
+Context (fnof : bytes -> outcome bytes) (legacy : bool).
 
 (* ---------- parseEMLAttachmentEmbed (eml.go:564) ----------
    [drained]: the part's body was already consumed by the nested-multipart branch *)
@@ -299,7 +303,9 @@ Definition part_step (sub : mstate -> outcome mstate) (p : entity) (st : mstate)
             ct0 <- go_index cts 0 ;;
             ph <- parse_multipart_header ct0 ;;
             let '(contentType, optional) := ph in
-            if eqfold contentType type_multipart_related then Ok st1 (* goto ReadNextPart *)
+            if eqfold contentType type_multipart_related
+               || (negb legacy && eqfold contentType type_multipart_alternative)
+            then Ok st1                                               (* goto ReadNextPart *)
             else
               let cs := match map_get optional lit_charset with
                         | Some c => c
@@ -365,7 +371,7 @@ Definition parse_ct_charset (h : hdr) (st : mstate) : outcome mstate :=
     ph <- parse_multipart_header v ;;
     let '(contentType, optional) := ph in
     let st1 := match map_get optional lit_charset with Some c => set_charset st c | None => st end in
-    if negb (is_empty contentType) && negb (eqfold contentType type_multipart_mixed)
+    if legacy && negb (is_empty contentType) && negb (eqfold contentType type_multipart_mixed)
     then Ok (set_gen st1 hdr_content_type contentType)
     else Ok st1.
 
@@ -376,9 +382,13 @@ Fixpoint copy_common (keys : list bytes) (h : hdr) (st : mstate) : mstate :=
   | k :: rest =>
       let v := hget h k in
       if is_empty v then copy_common rest h st
-      else if eqfold k hdr_content_type && is_prefix type_multipart_mixed v then copy_common rest h st
+      else if legacy && eqfold k hdr_content_type && is_prefix type_multipart_mixed v then copy_common rest h st
       else copy_common rest h (set_gen st k v)
   end.
+
+(* the list in the source; the unrepaired tree has Content-Type in front of it *)
+Definition common_headers : list bytes :=
+  if legacy then hdr_content_type :: eml_common_headers else eml_common_headers.
 
 (* [addr_ok]: From parses as one address and To/Cc/Bcc as address lists (each only if present);
    [date_ok]: the Date field is absent or parses *)
@@ -387,7 +397,7 @@ Definition parse_headers (h : hdr) (addr_ok date_ok : bool) (st : mstate) : outc
   st2 <- parse_ct_charset h st1 ;;
   if negb addr_ok then Err
   else if negb date_ok then Err
-  else Ok (copy_common eml_common_headers h (set_gen st2 hdr_date [])).
+  else Ok (copy_common common_headers h (set_gen st2 hdr_date [])).
 
 (* ---------- EMLToMsgFromReader / EMLToMsgFromString (eml.go:33, 50) ---------- *)
 Record top := mktop {
@@ -406,8 +416,8 @@ Definition parse_eml (t : top) : outcome mstate :=
 End Parser.
 
 (* the repaired parser and, for the record, the parser of the unrepaired tree *)
-Definition parse_eml_fixed : top -> outcome mstate := parse_eml filename_of.
-Definition parse_eml_old : top -> outcome mstate := parse_eml filename_of_old.
+Definition parse_eml_fixed : top -> outcome mstate := parse_eml filename_of false.
+Definition parse_eml_old : top -> outcome mstate := parse_eml filename_of_old true.
 
 (* ---------- observable printed by the driver (same text as the Go harness) ---------- *)
 Definition is_panic {A : Type} (o : outcome A) : bool := match o with Panic => true | _ => false end.
